@@ -31,8 +31,9 @@ var frozenJSON []byte
 var (
 	frozenOnce  sync.Once
 	frozenTable map[string]*frozenFn
-	nameCache   sync.Map // *ssa.Function -> *fnNames
 )
+
+var orphanNameCache sync.Map
 
 type fnNames struct {
 	params, frees []string
@@ -97,7 +98,13 @@ func namesOf(f *ssa.Function) *fnNames {
 	if f == nil {
 		return nil
 	}
-	if v, ok := nameCache.Load(f); ok {
+	var cache *sync.Map
+	if w := worldFor(f); w != nil {
+		cache = &w.nameCache
+	} else {
+		cache = &orphanNameCache
+	}
+	if v, ok := cache.Load(f); ok {
 		return v.(*fnNames)
 	}
 	loadFrozen()
@@ -139,7 +146,7 @@ func namesOf(f *ssa.Function) *fnNames {
 			}
 		}
 	}
-	nameCache.Store(f, n)
+	cache.Store(f, n)
 	return n
 }
 
